@@ -117,6 +117,11 @@ func contractMentions(c *Contract, props []string) bool {
 	if has(c.Props) {
 		return true
 	}
+	for _, p := range props {
+		if p == "C07" && !c.NoSafety {
+			return true // every function under contract carries no-panic / termination obligations, which belong to C07
+		}
+	}
 	for _, cl := range c.Requires {
 		if has(cl.Tags) {
 			return true
